@@ -1211,9 +1211,9 @@ ExpressionEvaluator::evaluate_typed_expression_internal(const ASTNode *node) {
                         idx < static_cast<int64_t>(var->array_values.size())) {
                         int64_t raw_value = var->array_values[idx];
 
-                        // 型に応じて符号拡張を行う
+                        // 型に応じて符号拡張を行う（unsigned配列は符号拡張しない）
                         int64_t typed_value = raw_value;
-                        switch (base_type) {
+                        switch (var->is_unsigned ? TYPE_LONG : base_type) {
                         case TYPE_TINY: {
                             // 8ビット符号付き整数として解釈
                             int8_t tiny_val =
